@@ -71,6 +71,9 @@ def make_labels(rng, n, regime, kind="clf", n_classes=3):
         lab[rng.randint(n)] = False
     elif regime == "random":
         lab[rng.rand(n) < rng.rand()] = True
+    elif regime == "full":      # every sample labelled: legal when the candidates are feature rows or arbitrary indices
+        lab[:] = True
+        return y_true, lab
     if lab.all():
         lab[rng.randint(n)] = False
     return y_true, lab
